@@ -11,12 +11,14 @@ import (
 	"syscall"
 	"time"
 
+	"gonum.org/v1/gonum/graph"
+	"gonum.org/v1/gonum/graph/community"
 	"gonum.org/v1/gonum/graph/network"
 	"gonum.org/v1/gonum/graph/simple"
 	"gonum.org/v1/gonum/verifx/vrt"
 )
 
-var mode = flag.String("mode", "all", "all | comma list of workloads (exh-d, exh-u, rnd-pr, rnd-bc, rnd-spec, rnd-q, rnd-mux, rnd-hist, fixed, hits-edgeless)")
+var mode = flag.String("mode", "all", "all | comma list of workloads (exh-d, exh-u, rnd-pr, rnd-bc, rnd-spec, rnd-q, rnd-mux, rnd-hist, rnd-neg, fixed, hits-edgeless)")
 
 func main() { vrt.Main("C15", run) }
 
@@ -73,6 +75,7 @@ func run(c *vrt.Ctx) {
 	timed("rnd-q", func() { rndCommunity(c) })
 	timed("rnd-mux", func() { rndMultiplex(c) })
 	timed("rnd-hist", func() { rndHistory(c) })
+	timed("rnd-neg", func() { rndSigned(c) })
 	calibMu.Lock()
 	for k, v := range calibs {
 		c.Note("calib."+k, v)
@@ -170,6 +173,16 @@ func exhDirected(c *vrt.Ctx) {
 			checkBetweenness(k, mw, r, reps)
 			checkDistance(k, m, r, reps)
 			checkDistance(k, mw, r, reps)
+			if mp := reweight(m, r, 1+r.Intn(3)); mp.M() > 0 {
+				shifted, cyclic := signedModels(mp, r)
+				if shifted.HasNegWeight() {
+					checkBetweenness(k, shifted, r, reps)
+					checkDistance(k, shifted, r, reps)
+				}
+				if cyclic != nil {
+					checkMeasuresOnOwnPaths(k, cyclic, r, pickRep(i))
+				}
+			}
 			checkLaplacians(k, m, r, reps)
 			checkDiffusion(k, m, r, pickRep(i))
 			// Q over every set partition, Modularize at every resolution
@@ -282,8 +295,23 @@ func rndPageRank(c *vrt.Ctx) {
 		if i%5 == 0 {
 			checkPageRank(k, m, r, combos[:1], []Rep{pickRep(i + 1)})
 		}
-		if !weighted {
+		if !weighted || i%4 == 1 {
+			// HITS takes a graph.Directed; handed a weighted type it must give the
+			// scores of the link structure (its doc does not mention weights)
 			checkHITS(k, m, r, prTols, []Rep{pickRep(i / 2)})
+		}
+		if weighted && i%6 == 1 && m.M() > 0 {
+			// extreme but legal magnitudes: the walk only depends on weight ratios
+			ms := m.Clone()
+			ms.Kind += "/scaled"
+			sc := math.Ldexp(1, 300)
+			if i%12 == 1 {
+				sc = math.Ldexp(1, -300)
+			}
+			for _, e := range ms.Edges() {
+				ms.W[e[0]][e[1]] *= sc
+			}
+			checkPageRank(k, ms, r, combos[:1], []Rep{pickRep(i)})
 		}
 		k.done()
 	})
@@ -613,7 +641,48 @@ func fixedWorkload(c *vrt.Ctx) {
 		checkSelfEdgePanics(k, r)
 	}
 	checkNegativeWeightPanics(k, r)
+	checkEmptyGraph(k, r)
 	k.done()
+}
+
+// checkEmptyGraph: the routines that accept a graph without nodes must return
+// empty results (PageRank and the Laplacian constructors are excluded: they
+// panic with mat.ErrZeroLength, and neither a rank vector summing to one nor a
+// 0x0 matrix exists).
+func checkEmptyGraph(k *K, r *vrt.Rand) {
+	for _, dir := range []bool{true, false} {
+		m := newG(0, dir, false)
+		for _, rep := range []Rep{RepSimple, RepOrd} {
+			kk := k.with(m, rep.String())
+			g := build(m, rep, r)
+			sig := shapeClass(m) + "+empty"
+			empty := func(name string, n int) {
+				kk.eval(name, "empty-graph", false)
+				if n != 0 {
+					kk.viol(name+"|"+sig+"|non-empty-result", n, "%s on a graph without nodes returned %d entries", name, n)
+				}
+			}
+			kk.try("Betweenness", sig, func() { empty("Betweenness", len(network.Betweenness(g))) })
+			kk.try("EdgeBetweenness", sig, func() { empty("EdgeBetweenness", len(network.EdgeBetweenness(g))) })
+			if dg, ok := g.(graph.Directed); ok {
+				kk.try("HITS", sig, func() { empty("HITS", len(network.HITS(dg, 1e-8))) })
+			}
+			for which := 0; which < 2; which++ {
+				p, _, ok := allShortest(kk, g, which)
+				if !ok {
+					continue
+				}
+				kk.try("Closeness", sig, func() { empty("Closeness", len(network.Closeness(g, p))) })
+				kk.try("Farness", sig, func() { empty("Farness", len(network.Farness(g, p))) })
+				kk.try("Harmonic", sig, func() { empty("Harmonic", len(network.Harmonic(g, p))) })
+				kk.try("Residual", sig, func() { empty("Residual", len(network.Residual(g, p))) })
+				kk.try("Eccentricity", sig, func() { empty("Eccentricity", len(network.Eccentricity(g, p))) })
+			}
+			kk.try("Modularize", sig, func() {
+				empty("Modularize", len(community.Modularize(g, 1, vrt.NewRand(1)).Communities()))
+			})
+		}
+	}
 }
 
 // ---------------------------------------------------------------------------
